@@ -95,6 +95,21 @@ def ext_switch(c):
                                              "note": "as-built exit re-enables extensions inside an outer context (Ext.tla NestedRestores violated with nesting); outside C13's statement"}
 
 
+def calib_scope(c):
+    """CalibScope.tla: the enter / re-enter / exit / raise protocol alone, complete for histories of any length (nesting <= 4)"""
+    import os
+
+    def cfg(name, leak, invs, props):
+        p = os.path.join(c.wd, name)
+        open(p, "w").write("SPECIFICATION Spec\nCONSTANTS\n  MaxNest = 4\n  ReentryLeak = %s\n" % ("TRUE" if leak else "FALSE")
+                           + "".join(f"INVARIANT {i}\n" for i in invs) + "".join(f"PROPERTY {i}\n" for i in props) + "CHECK_DEADLOCK FALSE\n")
+        return p
+    c.mc("CalibScope", cfg("MC_CalibScope.cfg", False, ["Mirrors", "Scoped"], ["ExitRemovesOne", "RaiseClears"]), workers=4,
+         require_actions=["Enter", "ReEnter", "Reuse", "Exit", "Raise"])
+    c.mc_expect_violation("CalibScope", cfg("MC_CalibScope_leak.cfg", True, ["Mirrors"], []), "Mirrors")
+    c.mc_expect_violation("CalibScope", cfg("MC_CalibScope_leak2.cfg", True, ["Scoped"], []), "Scoped")
+
+
 def body(c, judge):
     need = {"C08": ["Quantize", "Forward"], "C09": ["Freeze", "DeepCopy"], "C10": ["Save", "Load"], "C11": ["OptStep", "Forward"],
             "C13": ["RaiseIn", "ExitCalib", "ReEnterCalib", "Forward", "LibCall"]}[judge]
@@ -107,6 +122,7 @@ def body(c, judge):
         dirs += module_cases(c)
     if judge == "C13":
         ext_switch(c)
+        calib_scope(c)
     tr, consts = L.run(c, judge, dirs, need_actions=need)
     ctrls = []
     if judge == "C13":
